@@ -186,6 +186,13 @@ def fromCtc (ds : Dataset) : Outcome Out :=
   | .keyError => .keyError
   | .indexError => .indexError
 
+/-! ### sequences of conversions -/
+
+/-- a sequence of conversions in one process: the converter keeps no state between calls, so the
+model of a history is the pure `fromCtc` mapped over the datasets (what every step of a real
+history must equal: `GeffProps.C15.C15_history_independent`, tied by the harness' sequence stream) -/
+def convertSeq (dss : List Dataset) : List (Outcome Out) := dss.map fromCtc
+
 /-! ### shape of the exported segmentation array -/
 
 /-- `n_1_padding = (1,) * (5 - frame.ndim - 1)` when `tczyx` else `()` (a negative count is the
